@@ -100,7 +100,7 @@ def run(prog: Program, rep: Report, tier: str) -> None:
             x = atoms[1][1]
             # provenance of the named day
             okn = isinstance(x, tuple) and x[0] == "lookup" and tuple(x[1]) == table and isinstance(x[2], tuple) and (
-                (x[2][0] == "elemof" and x[2][1] == sel) or any(isinstance(g, tuple) and g[:2] == ("cmp", "in") and g[2] == x[2] and _same_sel(g[3], sel) for g in _flat13(o.state.pc)))
+                (x[2][0] == "elemof" and x[2][1] == sel) or (x[2][0] in ("argmin", "argmax") and len(x[2]) == 3 and (x[2][2] == sel or _same_sel(x[2][2], sel))) or any(isinstance(g, tuple) and g[:2] == ("cmp", "in") and g[2] == x[2] and _same_sel(g[3], sel) for g in _flat13(o.state.pc)))
             if not okn:
                 bad_n = f"the weekday named is {T.show(x)[:260]}; it must be Days.value looked up by weekday number for an ELEMENT of the selected days' weekdays"
             continue
@@ -155,6 +155,8 @@ def run(prog: Program, rep: Report, tier: str) -> None:
             if isinstance(v, tuple):
                 if len(v) == 3 and v[0] == "elemof" and v[1] == sel and v not in found:
                     found.append(v)
+                if len(v) == 3 and v[0] in ("argmin", "argmax") and (v[2] == sel or _same_sel(v[2], sel)) and v not in found:
+                    found.append(v)
                 for x in v:
                     walk(x)
             elif isinstance(v, T.Lin):
@@ -187,7 +189,7 @@ def run(prog: Program, rep: Report, tier: str) -> None:
         if is_nxt:
             N_list = [atoms[1][1][2]] if atoms[1][0] == "txt" and isinstance(atoms[1][1], tuple) and atoms[1][1][0] == "lookup" else []
         else:
-            N_list = [n for n in day_terms(o.state.pc) if not (isinstance(n[2], tuple) and n[2] == c(-1))] + _mods(o.state.pc)
+            N_list = [n for n in day_terms(o.state.pc) if not (n[0] == "elemof" and isinstance(n[2], tuple) and n[2] == c(-1))] + _mods(o.state.pc)
         if W is None or not N_list:
             bad5 = bad5 or "could not identify the chosen day / current weekday on a 'tomorrow'/'next' path"
             continue
@@ -258,6 +260,23 @@ def run(prog: Program, rep: Report, tier: str) -> None:
             if not (1 <= k <= 7 and hit and misses):
                 bad6 = bad6 or (f"the day is found by walking forward from tomorrow; a path answers with (today + {k}) % 7 {'without it being a selected day' if not hit else 'although an earlier candidate was not ruled out'}: "
                                 f"the walk must try today+1 .. today+7 (the same weekday a week ahead) and stop at the first selected one")
+            continue
+        # alternative algorithm: the selected weekday with the smallest forward distance from tomorrow,
+        # min(S, key = (d - today - 1) mod 7) - the key is injective on 0..6, so no ordering of S is involved
+        args_ = [n for n in Ns if n[0] in ("argmin", "argmax")]
+        if args_ and later is None:
+            e_sym = ("sym", "$e", ("elemof", args_[0][2]))
+            good_c = False
+            for n in args_:
+                key_ = n[1]
+                if n[0] == "argmin" and isinstance(key_, tuple) and key_[:2] == ("app", "mod") and len(key_) == 4 and key_[3] == c(7):
+                    lk = T.Lin.of(key_[2])
+                    es = [t for t in lk.coef if isinstance(t, tuple) and t[:2] == ("sym", "$e")]
+                    rest = lk - T.Lin.of(es[0]) + T.Lin.of(W) if len(es) == 1 and lk.coef.get(es[0]) == 1 else None
+                    if rest is not None and rest.is_const() and isinstance(rest.const, int) and rest.const % 7 == 6:
+                        good_c = True
+            if not good_c:
+                bad6 = bad6 or (f"the day is chosen as {T.show(args_[0])[:200]}; expected the selected weekday d minimising (d - today - 1) mod 7 (forward distance from tomorrow, today itself a full week ahead)")
             continue
         sorts = [e for e in o.state.events if e.kind == "reorder" and e.args and e.args[0] == sel]
         first_use = min([i for i, g in enumerate(pcs_o) if ("elemof" in T.show(g) or "filterobj" in T.show(g) or "nomatch" in T.show(g) or "emptyindex" in T.show(g))] or [len(pcs_o)])
